@@ -1,0 +1,51 @@
+//go:build verif
+
+// Read-only accessors for the runtime monitor of property C09 (/verif). They
+// expose the write-back bookkeeping of a StateDB so that a violation found
+// through the public API can be attributed to a cause. They change nothing and
+// do not exist without the build tag.
+
+package state
+
+import "gitlab.com/aquachain/aquachain/common"
+
+// VerifC09Object describes the cached object of one address.
+type VerifC09Object struct {
+	Cached        bool // an object for the address is in the live-object cache
+	Dirty         bool // the address is in the dirty set
+	Deleted       bool
+	Suicided      bool
+	Touched       bool
+	HasDirtyHook  bool // the object still holds its mark-dirty callback
+	DirtyStorage  int
+	CachedStorage int
+}
+
+// VerifC09ObjectInfo reports the cache bookkeeping for addr without loading it.
+func (s *StateDB) VerifC09ObjectInfo(addr common.Address) VerifC09Object {
+	var o VerifC09Object
+	_, o.Dirty = s.stateObjectsDirty[addr]
+	obj := s.stateObjects[addr]
+	if obj == nil {
+		return o
+	}
+	o.Cached = true
+	o.Deleted = obj.deleted
+	o.Suicided = obj.suicided
+	o.Touched = obj.touched
+	o.HasDirtyHook = obj.onDirty != nil
+	o.DirtyStorage = len(obj.dirtyStorage)
+	o.CachedStorage = len(obj.cachedStorage)
+	return o
+}
+
+// VerifC09AccountLeaf returns the value stored for addr in the account trie as it
+// is now (bypassing the object cache).
+func (s *StateDB) VerifC09AccountLeaf(addr common.Address) ([]byte, error) {
+	return s.trie.TryGet(addr[:])
+}
+
+// VerifC09JournalLen returns the number of undo entries and live revisions.
+func (s *StateDB) VerifC09JournalLen() (entries, revisions int) {
+	return len(s.journal), len(s.validRevisions)
+}
